@@ -31,10 +31,14 @@ var monthOffsets = []int{0, 1, -1, 2, -2, 11, -11, 12, -12, 13, -13, 14, -14, 25
 
 func init() {
 	register(&Check{
-		ID:            "C06",
-		Rule:          "every lunar year table in the year set (thorough: 1..9998), all 15 months each: structural invariants (numbering, leap placement, lengths, contiguity, year length) outside AD 8-23 / 236-240, agreement of every month shared by the tables of adjacent years, table accessors against the table, LunarMonth.Next(n) for the offset alphabet against the globally ordered month sequence assembled from the tables (so Next(n) = n x Next(1)), New Year's Eve / Next(1) at every year end. non-trivial = leap months, year-end transitions and months reached across a table boundary",
-		Assume:        []string{"reform windows AD 8-23 and 236-240 are exempt from the structural clauses exactly as the property states; navigation and cross-table agreement are still checked there"},
-		Shards:        func(tier string, seed int64) []Shard { return yearShards(tier, seed, 9998, "") },
+		ID:     "C06",
+		Rule:   "every lunar year table 1..9998 in both tiers, all 15 months each: structural invariants (numbering, leap placement, lengths, contiguity, year length) outside AD 8-23 / 236-240, agreement of every month shared by the tables of adjacent years, table accessors against the table, LunarMonth.Next(n) for the offset alphabet (thorough: every month of every year; quick: the quick-set years) against the globally ordered month sequence assembled from the tables (so Next(n) = n x Next(1)), New Year's Eve / Next(1) at every year end. non-trivial = leap months, year-end transitions and months reached across a table boundary",
+		Assume: []string{"reform windows AD 8-23 and 236-240 are exempt from the structural clauses exactly as the property states; navigation and cross-table agreement are still checked there"},
+		Shards: func(tier string, seed int64) []Shard {
+			// every tier builds and checks ALL 9998 tables (structure, agreement, accessors, year end);
+			// the quick tier restricts the navigation clause (19 offsets per month) to the quick-set years
+			return splitRanges([][2]int{{1, 9998}}, 64, Shard{Tier: tier, Seed: seed})
+		},
 		Run:           runC06,
 		Bounds:        func(tier string) map[string]interface{} { return map[string]interface{}{"month_offsets": monthOffsets} },
 		MinNontrivial: 50,
@@ -42,6 +46,10 @@ func init() {
 }
 
 func runC06(w *W) {
+	navYears := map[int]bool{}
+	for _, y := range quickYears(w.Shard.Seed, 9998) {
+		navYears[y] = true
+	}
 	for _, r := range w.Shard.Ranges {
 		lo, hi := r[0], r[1]
 		tabs := map[int][]MonthRec{}
@@ -208,6 +216,9 @@ func runC06(w *W) {
 			}
 			// navigation
 			for _, m := range in {
+				if !w.Thorough() && !navYears[y] {
+					break
+				}
 				i := pos[m.key()]
 				lm := calendar.NewLunarMonthFromYm(m.Y, m.M)
 				if lm == nil {
